@@ -77,7 +77,7 @@ def all_scripts(case, check, alphabet, limit):
     prefixes); check(case_with_script) -> (failure, exhausted). Returns (failure case or None, number run)"""
     queue = [[]]
     runs = 0
-    while queue and runs < limit:
+    while queue and runs < limit and not core.search_expired():
         script = queue.pop(0)
         c = dict(case, script=script)
         bad, exhausted = check(c)
@@ -119,7 +119,7 @@ def gen_case(rng, counting=None, tiny=True, reload=True):
 def shrink_case(case, check):
     ops = list(case["ops"])
     i = len(ops) - 1
-    while i >= 0:
+    while i >= 0 and not core.search_expired():
         cand = dict(case, ops=ops[:i] + ops[i + 1 :])
         if cand["ops"]:
             bad, _ = check(cand)
